@@ -400,7 +400,12 @@ func writeEvidence(pc *PropConfig, tier string, seed int, res *propResult, wall 
 		cov["explanation"] = "obligations = verification conditions generated for this property from /repo's working tree in this run, minus those attributed to an open known finding (known_finding_obligations, reported by a KNOWN-FINDING line); discharged = those answered unsat by a solver (or closed by the simplifier / satisfiable canaries)"
 		cov["discharged_by_backend"] = res.bySolver
 		// the slowest obligations of this run (a query near the per-obligation budget is the unstable kind)
-		slow := append([]*Obligation(nil), res.relevant...)
+		var slow []*Obligation
+		for _, o := range res.relevant {
+			if o.Kind != "canary" { // canaries run to their own fixed budget by design
+				slow = append(slow, o)
+			}
+		}
 		sort.Slice(slow, func(i, j int) bool { return slow[i].Time > slow[j].Time })
 		var slowest []map[string]interface{}
 		for i := 0; i < len(slow) && i < 5; i++ {
